@@ -238,4 +238,22 @@ CHECKS["C12"] = {
     ],
 }
 
+CHECKS["C06"] = {
+    "pkg": "./checks/c06",
+    "level": "exploration",
+    "rule": "per case a real chain with a plain account, a 3-signer and a 2-signer multi-signature account established by real modify-signers transactions (weights from {34,50,60,100}); then one transaction "
+            "(transfer, vote, contract creation, call, modify-signers) from the plain or the multisig account, self-paid or paid by a plain / multisig gas payer, with sender signatures drawn from: exact authorising set, subset below 100, "
+            "one signature repeated (another signer dropped), one signature re-encoded (s -> n-s), foreign key, signed before one of 12 fields was changed, none, signed with the other hash kind; payer signatures: exact, missing, "
+            "over other gas terms, foreign, subset. Reference: authorisation by construction (the harness knows which key signed which content; distinct registered signers over the final content with weights >= 100, resp. the account's own key). "
+            "Oracle: packaged by the miner path (BlockAssembler.MineBlock) or let through by the validator's TxProcessor.Process => authorised. Class `authorised-but-not-packaged` tracks generator health. "
+            "non-trivial = multisig sender, a gas payer, or a tampered field; distinct by description + tx hash.",
+    "level_text": "Generated signature sets against a by-construction authorisation reference on real chain state; one-directional (effect => authorised) as the statement is; exploration over the variant grid x weights.",
+    "level_note": "Trusted: the bookkeeping of which key signed which content; for reimbursed transactions the sender's signature does not cover the gas terms (by design of that transaction kind).",
+    "technique": "rapid-generated signature/multiset variants checked against a reference authorisation predicate",
+    "assumptions": ["a plain account is authorised by a signature of its own key over the final content", "validator side is exercised through TxProcessor.Process (ErrTxGasUsedNotEqual counts as let through: the signature check was passed)"],
+    "units": [
+        {"name": "authorisation", "test": "TestC06Authorisation", "quick": {"checks": 300, "shards": 4, "timeout": 900}, "thorough": {"checks": 5000, "shards": 12, "timeout": 3400}},
+    ],
+}
+
 NOT_APPLICABLE = {}
